@@ -96,7 +96,7 @@ func elements(t *Tree) []*Tree {
 	return out
 }
 
-var attrValues = []string{"", "0", "1", "true", "false", "abc", " 5 ", "+7", "-3", "18446744073709551616", "99999999999999999999999",
+var attrValues = []string{"", "0", "1", "true", "false", "TRUE", "False", "t", "abc", " 5 ", "+7", "-3", "18446744073709551616", "99999999999999999999999",
 	"2020-01-02T03:04:05Z", "2020-01-02T03:04:05.123456789+05:30", "2020-13-45T99:99:99Z", "+05:30", "Z", "-00:00",
 	"juliet@example.net/balcony", "@", "a@b@c", "YWJj", "YQ==", "YQ=", "Y Q = =", "!!!!", "sha-256", "sha-999", "prev", "complete",
 	"submit", "form", "text-multi", "jid-single", "boolean", "http://example.com/a b", "://", "a\nb", "x<y&z"}
@@ -106,6 +106,21 @@ var attrValues = []string{"", "0", "1", "true", "false", "abc", " 5 ", "+7", "-3
 func mutateTree(r *hx.Rand, root *Tree) string {
 	els := elements(root)
 	e := els[r.Intn(len(els))]
+	// attribute values decide most decoders' branches (booleans, numbers, times,
+	// addresses): every fourth mutation rewrites one, on an element that has some
+	if r.Chance(1, 4) {
+		var with []*Tree
+		for _, x := range els {
+			if len(x.Attrs) > 0 {
+				with = append(with, x)
+			}
+		}
+		if len(with) > 0 {
+			x := with[r.Intn(len(with))]
+			x.Attrs[r.Intn(len(x.Attrs))].Value = attrValues[r.Intn(len(attrValues))]
+			return "attr-value"
+		}
+	}
 	switch r.Intn(16) {
 	case 0:
 		if len(e.Kids) > 0 {
